@@ -8,7 +8,7 @@
    graphql.ApplyFragments leaves them -- whose common keys select the same field with the same
    arguments (the validation rule "fields in a set can merge"). *)
 From Coq Require Import String List Bool Arith Lia.
-From GW Require Import Base.Res Base.GoStr Base.Json Gql.Syntax Gql.Spec Gw.Points.
+From GW Require Import Base.Res Base.GoStr Base.Json Gql.Syntax Gql.Spec Gw.Points Proofs.PointsProofs.
 Import ListNotations.
 Open Scope string_scope.
 Open Scope list_scope.
@@ -327,6 +327,23 @@ Section Sound.
   Proof.
     intros G1 G2 C. rewrite (stitch_sound (S fuel) o rt l1 l2 G1 G2 C).
     rewrite !exec_unfold. rewrite merge_value_obj. reflexivity.
+  Qed.
+
+  (* ... and at a realised insertion point: when the accumulated response holds, at point p, the
+     answer to l1 for some object, stitching the answer to l2 for that object at p makes it hold the
+     answer to both there (every point that parts ways with p is untouched: insert_frame) *)
+  Corollary stitch_at_point fuel o rt l1 l2 p acc acc' :
+    good l1 -> good l2 -> compat l1 l2 -> p <> [] ->
+    extract_value p acc = Ok (exec (S fuel) w frags vars o rt l1) ->
+    insert_object acc p (exec (S fuel) w frags vars o rt l2) = Ok acc' ->
+    extract_value p acc' = Ok (exec (S fuel) w frags vars o rt (l1 ++ l2)).
+  Proof.
+    intros G1 G2 C Hp Hold Hins.
+    rewrite (stitch_sound (S fuel) o rt l1 l2 G1 G2 C).
+    rewrite exec_unfold in Hins. rewrite exec_unfold in Hold.
+    match type of Hins with insert_object _ _ (JObj ?src) = _ =>
+      destruct (insert_then_extract p acc (JObj src) acc' src Hp eq_refl Hins) as [tgt [A B]] end.
+    rewrite Hold in A. injection A as <-. rewrite B. rewrite !exec_unfold, merge_value_obj. reflexivity.
   Qed.
 End Sound.
 
